@@ -325,14 +325,28 @@ class _RacingGlob:
         return getattr(self._real, name)
 
 
-def collect_racing(d, reorder, between, via='glob'):
+class KeptCollector:
+    """ONE MultiProcessCollector object for a whole scenario — a server registers its collector once and every scrape
+    goes through that object; whatever it keeps between two collections is part of what is observed"""
+
+    def __init__(self, d):
+        from prometheus_client.multiprocess import MultiProcessCollector
+        from prometheus_client.registry import CollectorRegistry
+        self.obj = MultiProcessCollector(CollectorRegistry(), d)
+
+    def collect(self):
+        return fams_of(self.obj.collect())
+
+
+def collect_racing(d, reorder, between, via='glob', collector=None):
     """A collection that RACES with the rest of the world: the collector lists the directory, `reorder(listing)` fixes
     the order it meets the files in, `between(listing)` runs (processes are reaped, mark_process_dead removes files),
     and only then are the listed files read.  -> (families, the listing the collector worked from, how)
 
     via='glob': the real `MultiProcessCollector(...).collect()`, with the `glob` name of prometheus_client.multiprocess
     replaced for one listing; if the collector does not list through that name (hook never fired) or via='merge': the
-    public `MultiProcessCollector.merge(files)` on an explicit file list taken before `between` ran."""
+    public `MultiProcessCollector.merge(files)` on an explicit file list taken before `between` ran.
+    `collector`: a KeptCollector to collect through (via='glob') instead of a fresh object."""
     import types
     from prometheus_client import multiprocess
     from prometheus_client.registry import CollectorRegistry
@@ -361,7 +375,8 @@ def collect_racing(d, reorder, between, via='glob'):
         if hook is not None:
             multiprocess.glob = hook
             try:
-                fams = fams_of(multiprocess.MultiProcessCollector(CollectorRegistry(), d).collect())
+                obj = collector.obj if collector is not None else multiprocess.MultiProcessCollector(CollectorRegistry(), d)
+                fams = fams_of(obj.collect())
             finally:
                 multiprocess.glob = old
             if state['listing'] is not None:
